@@ -150,7 +150,7 @@ class Engine:
                         out.append(e)
                 else:
                     names = callee if isinstance(callee, (set, list, tuple)) else [callee]
-                    if nm in names and (kind == 'call' or e.tried):
+                    if (nm in names or e.q in names) and (kind == 'call' or e.tried):
                         out.append(e)
             elif kind == 'assign' and e.kind in ('assign', 'let'):
                 out.append(e)
